@@ -129,6 +129,16 @@ CHECKS = {
              "does not claim they coincide).",
         technique="TLA+ spec (Codegen.tla) generates presentations; code->spec trace validation of generation events (Codegen_Trace.tla)",
     ),
+    "C19": dict(
+        category="model_checking",
+        text="Strapdown.tla states the kinematics from the physics (Hamilton quaternions over exact rationals) and TLC computes all 16 outputs "
+             "for every axis-aligned case (25088, thorough) and for non-unit integer / rational unit quaternions, checking the algebra's own "
+             "sanity theorems on every point; each point is replayed into the symbolic model (sympy substitution) and into "
+             "python.compile(strapdown model) with CSE off and on.",
+        design_ref="DESIGN.md section 4 C19",
+        note="Trusted: Strapdown.tla's reading of the statement (q = ori (x) cal, roll/pitch/yaw = x/y/z); exact rationals; 1e-9 tolerance.",
+        technique="TLA+ spec (Strapdown.tla) + TLC exhaustive/simulation; spec->code replay into the symbolic and compiled model",
+    ),
 }
 
 NOT_YET = "check not built yet (work in progress; see DESIGN.md section 8 build order)"
